@@ -256,7 +256,12 @@ impl Accept for UnixListener {
 
     fn poll_accept(self: Pin<&mut Self>, cx: &mut Context<'_>) -> Poll<io::Result<Self::Conn>> {
         UnixListener::poll_accept(self.get_mut(), cx).map(|res| {
-            res.and_then(|(stream, remote)| Ok(UnixStream::new(stream, Some(remote.try_into()?))))
+            res.map(|(stream, remote)| {
+                // A peer bound to a path which is not UTF-8 is still a valid peer:
+                // record it as unnamed instead of failing the accept loop.
+                let remote = UnixAddr::try_from(remote).unwrap_or_else(|_| UnixAddr::unnamed());
+                UnixStream::new(stream, Some(remote))
+            })
         })
     }
 }
